@@ -45,10 +45,10 @@ def run(ctx, res):
                    prog.func(wrapper).loc())
         res.touched(prog.func(wrapper))
     res.extra["states"] = total
-    RR.rule_sink_error_path(prog, res)
-    RR.rule_source_error_path(prog, res)
-    RR.rule_thread_exit(prog, res)
-    RR.rule_start_reset(prog, res)
+    res.guard(RR.rule_sink_error_path, prog, res)
+    res.guard(RR.rule_source_error_path, prog, res)
+    res.guard(RR.rule_thread_exit, prog, res)
+    res.guard(RR.rule_start_reset, prog, res)
     res.require_min("HAL-FAIL-SUMMARY", 2)
     res.require_min("R-SINK-ERROR", 8)
     res.require_min("R-SOURCE-ERROR", 5)
